@@ -124,6 +124,7 @@ static void step_push(const node *n0, int depth, int tag, int shape)
     if ((tag & TAG_REKEY) == 0) { /* automatic rekey on counter wrap is part of the chunk event in both logs */ }
     snprintf(n.hist + strlen(n.hist), sizeof n.hist - strlen(n.hist), "P%d%d.", tag, shape);
     n_states++;
+    if (depth == 3 && tag == 3) VF_SAMPLE_CASE(4, "history %s (P<tag><shape> = push, L = pull of the genuine next chunk, RP/RL = explicit rekey of pusher/puller): last chunk %s", n.hist, vf_hex(c->bytes, c->len));
     explore(&n, depth + 1);
 }
 
